@@ -524,46 +524,61 @@ class Statics(Base):
             self.obj = OBJ.Objective(energy, jnp.asarray(self.U[self.unk]), p, OBJ.PrecondStrategy(assemble))
 
     def make_block_replica(self):
+        """Several k-block replicas of the same mesh (same material in every block).  Swarm over how the
+        element ids are split (random subsets / consecutive ranges) and in which order each block lists
+        its ids (sorted, reversed, rotated, shuffled, end points kept + interior shuffled) and in which
+        order the dict lists the blocks."""
         L, cfg = self.L, self.cfg
         jnp = L['jnp']
         ne = int(self.mesh.conns.shape[0])
         rb = np.random.Generator(np.random.PCG64(int(cfg['blockseed'])))
-        k = min(cfg['nblocks'], ne)
-        style = str(rb.choice(['random_sorted', 'random_shuffled', 'ranges_sorted', 'ranges_shuffled']))
-        if style.startswith('ranges'):
-            cuts = np.sort(rb.choice(np.arange(1, ne), size=k - 1, replace=False)) if k > 1 else np.array([], dtype=int)
-            lab = np.zeros(ne, dtype=int)
-            for c in cuts:
-                lab[c:] += 1
-        else:
-            lab = rb.integers(0, k, size=ne)
-            lab[:k] = np.arange(k)
-            lab = lab[rb.permutation(ne)]
-        names = ['b%d' % i for i in range(k)]
-        order = list(rb.permutation(k))
-        blocks = {}
-        for i in order:
-            ids = np.flatnonzero(lab == i)
-            if style.endswith('shuffled'):
-                ids = ids[rb.permutation(len(ids))]     # element ids of a block in arbitrary order
-            blocks[names[i]] = jnp.asarray(ids)
-        self.ctx.probe('block_style:' + style)
-        mesh_b = self.mesh._replace(blocks=blocks)
-        fs_b = L['FS'].construct_function_space(mesh_b, self.quad)
-        models = {names[i]: self.mat for i in order}
-        try:
-            with core.quiet_stdout():
-                self.mech_b = L['Mech'].create_multi_block_mechanics_functions(fs_b, 'plane strain', models,
-                                                                               pressureProjectionDegree=cfg['ppd'])
-        except (core.RunTimeout, core.Violation):
-            raise
-        except Exception as e:
-            self.ctx.violate('C02', 'factory_option', 'create_multi_block_mechanics_functions(pressureProjectionDegree=%r) raised %r'
-                             % (cfg['ppd'], e), sig=dict(self.sig, factory='multi', exc=type(e).__name__))
-            return
-        self.blocks = blocks
-        self.state_b = self.mech_b.compute_initial_state()
-        self.ctx.probe('block_replica:%d' % k)
+        nrep = 3 if cfg['material']['kind'] in ('linear', 'neohookean', 'gent') else 1
+        self.replicas = []
+        for rep in range(nrep):
+            k = min(int(rb.integers(2, 5)) if rep else cfg['nblocks'], ne)
+            split = str(rb.choice(['random', 'ranges']))
+            order_style = str(rb.choice(['sorted', 'reversed', 'rotated', 'shuffled', 'ends_kept']))
+            if split == 'ranges':
+                cuts = np.sort(rb.choice(np.arange(1, ne), size=k - 1, replace=False)) if k > 1 else np.array([], dtype=int)
+                lab = np.zeros(ne, dtype=int)
+                for c in cuts:
+                    lab[c:] += 1
+            else:
+                lab = rb.integers(0, k, size=ne)
+                lab[:k] = np.arange(k)
+                lab = lab[rb.permutation(ne)]
+            names = ['b%d' % i for i in range(k)]
+            order = list(rb.permutation(k))
+            blocks = {}
+            for i in order:
+                ids = np.flatnonzero(lab == i)
+                if order_style == 'reversed':
+                    ids = ids[::-1]
+                elif order_style == 'rotated' and len(ids) > 1:
+                    ids = np.roll(ids, int(rb.integers(1, len(ids))))
+                elif order_style == 'shuffled':
+                    ids = ids[rb.permutation(len(ids))]
+                elif order_style == 'ends_kept' and len(ids) > 3:
+                    ids = np.concatenate([ids[:1], ids[1:-1][rb.permutation(len(ids) - 2)], ids[-1:]])
+                blocks[names[i]] = jnp.asarray(ids)
+            self.ctx.probe('block_style:%s/%s' % (split, order_style))
+            mesh_b = self.mesh._replace(blocks=blocks)
+            fs_b = L['FS'].construct_function_space(mesh_b, self.quad)
+            models = {names[i]: self.mat for i in order}
+            try:
+                with core.quiet_stdout():
+                    mech_b = L['Mech'].create_multi_block_mechanics_functions(fs_b, 'plane strain', models,
+                                                                              pressureProjectionDegree=cfg['ppd'])
+            except (core.RunTimeout, core.Violation):
+                raise
+            except Exception as e:
+                self.ctx.violate('C02', 'factory_option', 'create_multi_block_mechanics_functions(pressureProjectionDegree=%r) raised %r'
+                                 % (cfg['ppd'], e), sig=dict(self.sig, factory='multi', exc=type(e).__name__))
+                return
+            self.replicas.append({'blocks': blocks, 'mech': mech_b, 'state': mech_b.compute_initial_state(),
+                                  'style': split + '/' + order_style})
+        self.blocks = True
+        self.ctx.probe('block_replicas', len(self.replicas))
 
     # -- invariants after every op ---------------------------------------------------------------
     def audit(self, what):
@@ -588,16 +603,24 @@ class Statics(Base):
             Uj = jnp.asarray(self.U)
             with core.quiet_stdout():
                 e1 = float(self.mech.compute_strain_energy(Uj, self.state, self.dt))
-                eb = float(self.mech_b.compute_strain_energy(Uj, self.state_b, self.dt))
                 k1 = np.asarray(self.mech.compute_element_stiffnesses(Uj, self.state, self.dt))
-                kb = np.asarray(self.mech_b.compute_element_stiffnesses(Uj, self.state_b, self.dt))
-            if np.isfinite(e1) and np.all(np.isfinite(k1)):
-                ctx.require(abs(e1 - eb) <= 1e-12 * (abs(e1) + 1e-300) + 1e-300, 'C02', 'blocks/energy',
-                            lambda: 'energy of the %d-block replica %.15g != single-block %.15g' % (len(self.blocks), eb, e1), sig=self.sig)
-                sk = np.max(np.abs(k1)) + 1e-300
-                ctx.require(kb.shape == k1.shape and np.max(np.abs(k1 - kb)) <= 1e-12 * sk, 'C02', 'blocks/stiffness',
-                            lambda: 'element stiffnesses of the block replica differ by %.3g (scale %.3g)' % (np.max(np.abs(k1 - kb)), sk), sig=self.sig)
-                ctx.probe('blocks_compared')
+            for R in self.replicas:
+                with core.quiet_stdout():
+                    eb = float(R['mech'].compute_strain_energy(Uj, R['state'], self.dt))
+                    kb = np.asarray(R['mech'].compute_element_stiffnesses(Uj, R['state'], self.dt))
+                sigb = dict(self.sig, blocks=R['style'])
+                if np.isfinite(e1) and np.all(np.isfinite(k1)):
+                    # energy densities cancel at small strain (terms of the size of the modulus): the re-associated
+                    # block sums differ by rounding of modulus x area, not of the energy itself
+                    mod = self.cfg['material'].get('elastic modulus', self.cfg['material'].get('equilibrium bulk modulus', 1.0))
+                    efloor = 1e-13 * mod * float(np.sum(np.abs(np.asarray(self.fs.vols)))) * 10
+                    ctx.require(abs(e1 - eb) <= 1e-12 * abs(e1) + efloor, 'C02', 'blocks/energy',
+                                lambda: 'energy of the %d-block replica %.15g != single-block %.15g' % (len(R['blocks']), eb, e1), sig=sigb)
+                    sk = np.max(np.abs(k1)) + 1e-300
+                    ctx.require(kb.shape == k1.shape and np.max(np.abs(k1 - kb)) <= 1e-12 * sk, 'C02', 'blocks/stiffness',
+                                lambda: 'element stiffnesses of the %d-block replica (%s) differ from the single-block ones by %.3g (scale %.3g)'
+                                % (len(R['blocks']), R['style'], np.max(np.abs(k1 - kb)), sk), sig=sigb)
+                    ctx.probe('blocks_compared')
         # C10 FE level: output stresses are the derivative of the output energy densities
         self.fe_stress_check()
 
@@ -741,14 +764,16 @@ class Statics(Base):
         with core.quiet_stdout():
             new = self.mech.compute_updated_internal_variables(jnp.asarray(self.U), self.state, self.dt)
         if self.blocks is not None:
-            with core.quiet_stdout():
-                newb = self.mech_b.compute_updated_internal_variables(jnp.asarray(self.U), self.state_b, self.dt)
-            a, b = np.asarray(new), np.asarray(newb)
-            if a.size and np.all(np.isfinite(a)):
-                sc = np.max(np.abs(a)) + 1e-300
-                self.ctx.require(a.shape == b.shape and np.max(np.abs(a - b)) <= 1e-12 * sc, 'C02', 'blocks/state_update',
-                                 lambda: 'internal-variable update of the block replica differs by %.3g' % np.max(np.abs(a - b)), sig=self.sig)
-            self.state_b = newb
+            for R in self.replicas:
+                with core.quiet_stdout():
+                    newb = R['mech'].compute_updated_internal_variables(jnp.asarray(self.U), R['state'], self.dt)
+                a, b = np.asarray(new), np.asarray(newb)
+                if a.size and np.all(np.isfinite(a)):
+                    sc = np.max(np.abs(a)) + 1e-300
+                    self.ctx.require(a.shape == b.shape and np.max(np.abs(a - b)) <= 1e-12 * sc, 'C02', 'blocks/state_update',
+                                     lambda: 'internal-variable update of the block replica (%s) differs by %.3g' % (R['style'], np.max(np.abs(a - b))),
+                                     sig=dict(self.sig, blocks=R['style']))
+                R['state'] = newb
         if np.all(np.isfinite(np.asarray(new))):
             self.state = new
         else:
